@@ -116,3 +116,29 @@ package memoryevict
 //@   ensures #desc: !byev && !byprio && a.MemoryUsed >= 0 && b.MemoryUsed >= 0 && a.MemoryUsed != b.MemoryUsed ==> (result <==> a.MemoryUsed > b.MemoryUsed)
 //@   ensures #name: !byev && !byprio && a.MemoryUsed == 0 && b.MemoryUsed == 0 ==> (result <==> a.Pod.ObjectMeta.Name > b.Pod.ObjectMeta.Name)
 //@   modifies nothing
+
+// ---- what a victim is credited with: the per-pod resource closures handed to the eviction loop ----
+// The eviction loop stops as soon as the credited amounts cover the shortfall, so a credit that is too small evicts more
+// pods than needed. BEMemoryEvict / MemoryEvict credit exactly the victim's recorded memory usage (bytes, as collected into
+// the victim info), as memory and nothing else; never negative for a non-negative recorded usage.
+//@ func (*memoryEvictor).calculateReleaseByUsedThresholdPercent$1 [C11]
+//@   ensures #shape: result != nil && fresh(result) && has(result, corev1.ResourceMemory)
+//@   ensures #only: forall n corev1.ResourceName :: {has(result, n)} has(result, n) ==> n == corev1.ResourceMemory
+//@   ensures #value: val(result, corev1.ResourceMemory) == podInfo.MemoryUsed && val(result, corev1.ResourceMemory).Value() == podInfo.MemoryUsed
+//@   ensures #nonneg: podInfo.MemoryUsed >= 0 ==> val(result, corev1.ResourceMemory) >= 0
+//@   modifies nothing
+
+// MemoryAllocatableEvict credits a victim only when the resource tier of its (defaulted) priority class is short on the
+// node (the captured set prioritiesMp); then exactly its request of that tier: one entry, keyed by the tier's memory resource
+// and holding the amount (bytes) GetRequestTypeAndValueFromPod reports for the pod (an assumed observer, see
+// /verif/lib/C11.spec).
+//@ func (*memoryEvictor).calculateReleaseByAllocatableThresholdPercent$1 [C11]
+//@   requires apiext.rangesOK() && apiext.DefaultPriorityClass == apiext.PriorityNone     // configuration invariant of the priority bands (as in C13)
+//@   let short = has(deref($fv_prioritiesMp), apiext.podPrioDefault(podInfo.Pod))
+//@   ensures #skip: !short ==> result == nil
+//@   ensures #shape: short ==> result != nil && fresh(result) && has(result, lastresult("GetRequestTypeAndValueFromPod", 0))
+//@   ensures #only: short ==> (forall n corev1.ResourceName :: {has(result, n)} has(result, n) ==> n == lastresult("GetRequestTypeAndValueFromPod", 0))
+//@   ensures #asked: short ==> calls("GetRequestTypeAndValueFromPod") == 1
+//@   ensures #value: short ==> (lastresult("GetRequestTypeAndValueFromPod", 0) == corev1.ResourceCPU ? val(result, corev1.ResourceCPU).MilliValue() == lastresult("GetRequestTypeAndValueFromPod", 1) : val(result, lastresult("GetRequestTypeAndValueFromPod", 0)).Value() == lastresult("GetRequestTypeAndValueFromPod", 1))    // up to the rounding of MilliValue()/Value(): all the contract of ConvertInt64ToQuantity (plugins/util) gives
+//@   assert before call GetRequestFromPod: #args: $arg0 == podInfo.Pod && $arg1 == corev1.ResourceMemory
+//@   modifies nothing
